@@ -201,7 +201,12 @@ def run_kernel(cases: list[tuple[str, str]], tag: str, timeout: int = 300) -> tu
         flat = " ".join(out.split())
         m = re.search(r"SL \[SI 777777; SL \[(.*?)\]; SI (\d+)\]", flat)
         if not m:
-            raise RuntimeError(f"in-kernel evaluation failed for {f}: {out[-2000:]}")
+            # the development does not build (a proof obligation or a generated table broke): no
+            # in-kernel evaluation is possible; reported as a mismatch so that the check goes to
+            # the violation protocol instead of crashing
+            print(f"in-kernel evaluation unavailable: {' '.join(out.split())[-300:]}", flush=True)
+            bad.append(-1)
+            continue
         idx = [int(x) for x in re.findall(r"SI (\d+)", m.group(1))]
         bad += [k + i for i in idx]
         n += int(m.group(2))
@@ -451,3 +456,40 @@ def supported(md) -> bool:
     a = md.get_active_rules()
     return ("paragraph" in a["block"] and "text" in a["inline"]
             and all(x in a["core"] for x in ("normalize", "block", "inline", "text_join")))
+
+
+# --------------------------------------------------------------------------
+# the common tail of a check
+
+
+def conclude(rep: "Reporter", proofs: dict, direct: dict | None, direct_kind: str, disagreements: list,
+             kbad: list, search=None, corr_level: str = "") -> None:
+    """violation protocol: a direct failing input is reported with itself as replay; a broken
+    proof / correspondence without one triggers [search] (a callable returning a failing input
+    or None); otherwise no-failing-input-found naming what no longer checks"""
+    if direct is not None:
+        rep.violation(direct_kind, direct)
+        return
+    if disagreements or not proofs["ok"] or kbad:
+        found = search() if search else None
+        if found is not None:
+            rep.violation(direct_kind, found)
+            return
+        what = {}
+        if not proofs["ok"]:
+            what["broken_proof"] = proofs["failed"]
+            what["log_tail"] = proofs["log"][-1500:]
+        if disagreements:
+            what["correspondence"] = {"level": corr_level, "count": len(disagreements), "first": disagreements[0]}
+        if kbad:
+            what["kernel_vs_extracted"] = kbad[:5]
+        rep.violation("model-correspondence", what, no_input=True)
+
+
+def proof_cov(pid: str, proofs: dict, extra_trusted: list[str]) -> dict:
+    return {
+        "obligations": len(proofs["obligations"]), "discharged": len(proofs["discharged"]),
+        "checker_cmd": f"make Props/{pid}.vo (coqc 8.16.1, full .vo) via /verif/build.sh",
+        "trusted_base": TRUSTED_COMMON + extra_trusted,
+        "theorems": proofs["obligations"], "print_assumptions": proofs["assumptions"],
+    }
